@@ -114,6 +114,12 @@ def worker(unit, emit):
 def main():
     chk = run.Check(PROP)
     quick = chk.tier == 'quick'
+    # design level: the is_valid idiom gives the contract iff validate never returns a falsy value, never raises a foreign
+    # exception, and is called with the caller's options (IsValidDesign.tla; the three hazards must be refuted)
+    chk.mc('IsValidDesign', 'MC_IsValid_code', workers=2, label='the is_valid idiom under the assumptions')
+    chk.mc('IsValidDesign', 'MC_IsValid_plain', workers=2, expect_violation='V3', label='hazard: validate returns an empty string (gs1_128)')
+    chk.mc('IsValidDesign', 'MC_IsValid_leak', workers=2, expect_violation='V2', label='hazard: a foreign exception leaks')
+    chk.mc('IsValidDesign', 'MC_IsValid_forgot_option', workers=2, expect_violation='V3', label='hazard: is_valid drops the option (gs1_128 separator)')
     scripts1 = gen_scripts(chk, 'Gen_Inputs1')
     scripts2 = gen_scripts(chk, 'Gen_Inputs2R', simulate='num=%d' % (60 if quick else 1500), depth=3)
     p = {'seed': chk.seed, 'bases': 2 if quick else 12, 'k': 1 if quick else 3, 'thin': 0.35 if quick else 0,
